@@ -146,6 +146,76 @@ def judge(acc, f, r, o, s, b, us, route, carrier, int_params, part):
     acc.sample(dict(case, us=case['us'][:3]), 1)
 
 
+HISTORIES = ('resize_n_frac', 'resize_dtype', 'resize_n_word_n_int', 'best_sizes', 'like_resized')
+
+
+def judge_history(acc, f, r, o, s, b, us, int_params, part):
+    """a live scaled object is created in ANOTHER format, read (value, limits), then brought to the judged format by a resize route or by
+    set_best_sizes, then the values are stored and read: codes, read-back, limits and flags must be those of a fresh object of that format"""
+    ufr = [dy_frac(u) for u in us]
+    vs = [u * s + b for u in ufr]
+    ok = [i for i, (u, v) in enumerate(zip(ufr, vs)) if exact_f(v) and exact_f(v - b) and exact_f((v - b) / s)]
+    us, vs = [us[i] for i in ok], [vs[i] for i in ok]
+    if not vs:
+        return
+    sp, bp = as_param(s, int_params), as_param(b, int_params)
+    arr = np.array([float(v) for v in vs], dtype=np.float64)
+    f0 = Fmt(f.signed, f.n_word + 6, f.n_frac + 5)          # never the format the history ends in
+    for how in HISTORIES:
+        case = {'part': part, 'history': how, 'fmt': list(f), 'mode': [r, o], 'scale': [s.numerator, s.denominator], 'bias': [b.numerator, b.denominator],
+                'us': [list(u) for u in us], 'int_params': int_params}
+        acc.evaluations += len(us)
+        acc.transitions += 6
+        acc.nontrivial += len(us)
+        acc.dim('history', how, len(us))
+        try:
+            x = Fxp(np.full(len(vs), float(b)), signed=f0.signed, n_word=f0.n_word, n_frac=f0.n_frac, rounding=r, overflow=o, scale=sp, bias=bp)
+            x.get_val(), x.upper, x.lower, x.precision, x.astype(float), str(x)
+            if how == 'resize_n_frac':
+                x.resize(n_word=f.n_word, n_frac=f.n_frac)
+            elif how == 'resize_dtype':
+                x.resize(dtype=f.dtype)
+            elif how == 'resize_n_word_n_int':
+                x.resize(n_word=f.n_word, n_int=f.n_int)
+            elif how == 'like_resized':
+                x = Fxp(None, like=x, n_word=f.n_word, n_frac=f.n_frac)
+            else:
+                x.set_best_sizes(arr)
+            g = fmt_of(x)
+            x.set_val(arr)
+            got, fl = codes(x), flags(x)
+            gv = np.asarray(x.get_val(), dtype=np.float64).tolist()
+            lim = (x.upper, x.lower, x.precision)
+        except Exception as e:
+            acc.violation('exception', case, '%s scale=%r bias=%r history %s raised %r' % (f.dtype, sp, bp, how, e), {'part': part, 'history': how})
+            continue
+        if how != 'best_sizes' and g != f:
+            acc.violation('format', case, 'history %s gives format %s, expected %s' % (how, g.dtype, f.dtype), {'part': part, 'history': how})
+            continue
+        q = [quantize(u, g, r, o) for u in us]
+        lsb = Fraction(2) ** -g.n_frac
+        sig = '%s %s/%s scale=%r bias=%r after %s (now %s)' % (f0.dtype, r, o, sp, bp, how, g.dtype)
+        if got != [e[0] for e in q]:
+            acc.violation('code', case, '%s: stored codes %s, expected %s' % (sig, got[:6], [e[0] for e in q][:6]), {'part': part, 'history': how})
+            continue
+        for i, e in enumerate(q):
+            want = s * e[0] * lsb + b
+            if exact_f(want) and exact_f(e[0] * lsb) and exact_f(s * e[0] * lsb) and Fraction(gv[i]) != want:
+                acc.violation('readback', case, '%s: code %d reads back %r, expected s*code*LSB+b = %s' % (sig, e[0], gv[i], want),
+                              {'part': part, 'history': how})
+                break
+        else:
+            ef = (any(e[1] for e in q), any(e[2] for e in q), any(e[3] for e in q))
+            wl = (s * g.hi * lsb + b, s * g.lo * lsb + b, s * lsb)
+            if fl != ef:
+                acc.violation('flags', case, '%s: flags %s, expected %s' % (sig, fl, ef), {'part': part, 'history': how})
+            elif all(exact_f(w) for w in wl) and tuple(Fraction(v) for v in lim) != wl:
+                acc.violation('limits', case, '%s: upper/lower/precision %s, expected %s' % (sig, [str(v) for v in lim], [str(v) for v in wl]),
+                              {'part': part, 'history': how})
+            else:
+                acc.outcome('history_checked')
+
+
 def judge_infer(acc, u, s, b, pattern, int_params, part):
     uf = dy_frac(u)
     v = uf * s + b
@@ -226,6 +296,9 @@ def run_shard(sh):
                         judge(acc, f, r, o, s, b, us, 'ctor', 'iarr', True, 'S')
                         judge(acc, f, r, o, s, b, us, 'set_val', 'iarr', True, 'S')
                 judge(acc, f, 'around', 'saturate', s, b, us, 'ctor', 'farr', False, 'S')
+                if nw <= 3 or nf in (0, nw):
+                    judge_history(acc, f, 'around', 'saturate', s, b, us, True, 'S')
+                    judge_history(acc, f, 'floor', 'wrap', s, b, us, False, 'S')
     elif sh['part'] == 'B':
         nw = sh['nw']
         for signed in (True, False):
@@ -264,6 +337,9 @@ def replay(case):
     reset_class_state()
     acc = Acc()
     s, b = Fraction(*case['scale']), Fraction(*case['bias'])
+    if case.get('history'):
+        judge_history(acc, Fmt(*case['fmt']), case['mode'][0], case['mode'][1], s, b, [tuple(u) for u in case['us']], case['int_params'], case['part'])
+        return [v for v in acc.violations if v['case'].get('history') == case['history']]
     if 'u' in case:
         judge_infer(acc, tuple(case['u']), s, b, case['pattern'], case['int_params'], case['part'])
     else:
